@@ -7,6 +7,10 @@ from .py2lean import Fn, Rec
 I2 = ("T", "Int", "Int")
 LI = ("L", "Int")
 
+# what the legacy grid mutators change: the cell table, the empties set, the mask and the agent's `pos`
+SINGLE_STATE = {"self._grid": ("L", ("L", ("O", "Int"))), "self._empties": ("L", I2), "self._empty_mask": ("L", ("L", "Bool")),
+                "agent.pos": ("O", I2)}
+
 GROUPS = {
     "Cells": {
         "namespace": "Mesa.Cells.GenFn",
@@ -76,6 +80,12 @@ GROUPS = {
         "path": "MesaModel/Gen/FnLegacy.lean",
         "recs": [
             Rec("LGrid", {"width": "Int", "height": "Int", "torus": "Bool", "_neighborhood_cache": ("D", ("T", I2, "Bool", "Bool", "Int"), ("L", I2))}),
+            # SingleGrid as the mutators see it: `_grid[x][y]` is None or an agent (named by its unique_id), `_empties` the
+            # list of the set's members, `_empty_mask` the numpy bool array as a list of rows; an agent: its id and `pos`
+            Rec("LSpace", {"width": "Int", "height": "Int", "torus": "Bool", "_grid": ("L", ("L", ("O", "Int"))),
+                           "_empties_built": "Bool", "_empties": ("L", I2), "_empty_mask": ("L", ("L", "Bool")),
+                           "_neighborhood_cache": ("D", ("T", I2, "Bool", "Bool", "Int"), ("L", I2))}),
+            Rec("LAgent", {"unique_id": "Int", "pos": ("O", I2)}),
         ],
         "fns": [
             Fn("C09", "mesa/space.py", "_Grid.out_of_bounds", "out_of_bounds", {"pos": I2}, self_rec="LGrid"),
@@ -83,6 +93,19 @@ GROUPS = {
             Fn("C09", "mesa/space.py", "_Grid.get_neighborhood", "get_neighborhood",
                {"pos": I2, "moore": "Bool", "include_center": "Bool", "radius": "Int"}, self_rec="LGrid",
                state={"self._neighborhood_cache": ("D", ("T", I2, "Bool", "Bool", "Int"), ("L", I2))}),
+            # the SingleGrid mutators (group = the methods a SingleGrid instance resolves to)
+            Fn("C08", "mesa/space.py", "_Grid.default_val", "default_val", {}, ret=("O", "Int")),
+            Fn("C08", "mesa/space.py", "_Grid.is_cell_empty", "is_cell_empty", {"pos": I2}, self_rec="LSpace"),
+            Fn("C08", "mesa/space.py", "SingleGrid.place_agent", "place_agent", {"agent": ("R", "LAgent"), "pos": I2},
+               self_rec="LSpace", ident={"agent": "unique_id"}, state=dict(SINGLE_STATE)),
+            Fn("C08", "mesa/space.py", "SingleGrid.remove_agent", "remove_agent", {"agent": ("R", "LAgent")},
+               self_rec="LSpace", ident={"agent": "unique_id"}, state=dict(SINGLE_STATE)),
+            # `_Grid.move_agent` on a SingleGrid (torus_adj, then the two mutators above), then `SingleGrid.move_agent`, whose
+            # `super().move_agent` is the former
+            Fn("C08", "mesa/space.py", "_Grid.move_agent", "move_agent_base", {"agent": ("R", "LAgent"), "pos": I2},
+               self_rec="LSpace", ident={"agent": "unique_id"}, state=dict(SINGLE_STATE), may_raise=True),
+            Fn("C08", "mesa/space.py", "SingleGrid.move_agent", "move_agent", {"agent": ("R", "LAgent"), "pos": I2},
+               self_rec="LSpace", ident={"agent": "unique_id"}, state=dict(SINGLE_STATE), may_raise=True),
         ],
     },
     "Devs": {
@@ -159,9 +182,15 @@ REGISTRY = {
     },
     "C08": {
         "groups": ["Legacy"],
-        "functions": ["_Grid.out_of_bounds", "_Grid.torus_adj"],
+        "functions": ["_Grid.out_of_bounds", "_Grid.torus_adj", "_Grid.default_val", "_Grid.is_cell_empty",
+                      "SingleGrid.place_agent", "SingleGrid.remove_agent", "_Grid.move_agent", "SingleGrid.move_agent"],
         "lean_modules": ["MesaModel.Proofs.XlateLegacy"],
-        "theorems": ["Mesa.Legacy." + t for t in ("C08_gen_out_of_bounds_eq_model", "C08_gen_torus_adj_eq_model")],
+        "theorems": ["Mesa.Legacy." + t for t in (
+            "C08_gen_out_of_bounds_eq_model", "C08_gen_torus_adj_eq_model",
+            "C08_gen_is_cell_empty_eq_model", "C08_gen_place_agent_eq_model", "C08_gen_remove_agent_eq_model",
+            "C08_place_agent_views_generated", "C08_remove_agent_views_generated",
+            "C18_place_agent_rejected_unchanged_generated",
+            "C08_gen_move_agent_base_eq_model", "C08_gen_move_agent_eq_model", "C18_move_agent_rejected_unchanged_generated")],
     },
     "C14": {
         "groups": ["Devs"],
